@@ -150,6 +150,43 @@ def leaked(r):
     return [e for e, c in enumerate(last["rc"], start=1) if c < 0 or (c > 0 and e not in held)]
 
 
+def symptoms(r):
+    """Properties whose violation is visible in the raw run as a whole, wherever the trace happened to be rejected:
+    a lossless node that has not delivered exactly what arrived, in order (C02; C13 for delay / rate_limit, C08 for the
+    window nodes)."""
+    cfg = r["cfg"]
+    k = cfg.get("kind")
+    if cfg.get("faults") or k not in ("buffer", "delay", "rate_limit", "map_async", "partition", "timed_window"):
+        return []
+    end = [e for e in r["ev"] if e["ev"] == "end"]
+    if not end or not end[-1].get("quiescent", True):
+        return []
+    arrived = [e["e"] for e in r["ev"] if e["ev"] == "emit_call"]
+    got = []
+    for e in r["ev"]:
+        if e["ev"] == "deliver":
+            got += list(e["x"])
+    held = []
+    obs = end[-1].get("obs") or {}
+
+    def ints(x):
+        if isinstance(x, (list, tuple)):
+            out = []
+            for y in x:
+                out += ints(y)
+            return out
+        return [x] if isinstance(x, int) else []
+    if k in ("partition", "timed_window"):
+        held = ints([v for _, v in obs.get("buf", [])] if k == "partition" else obs.get("buf", []))
+    if k == "partition" and cfg.get("mod"):
+        ok = sorted(got + held) == sorted(arrived)           # several keys: order is per key only
+    else:
+        ok = got + [h for h in held if h not in got] == arrived or sorted(got + held) == sorted(arrived) and got == sorted(got)
+    if ok:
+        return []
+    return ["C02"] + (["C13"] if k in ("delay", "rate_limit") else []) + (["C08"] if k in ("partition", "timed_window") else [])
+
+
 PRIVATE_OBS = ("ObsQ", "ObsBuf", "ObsTimers", "ObsSlot", "ObsNext", "ObsBufs")
 
 
@@ -258,6 +295,10 @@ def node_engine(res, work, *, node, trace_module, cfgs, consts_of, adapt, attrib
             also = (["C05"] if prop == "C04" else []) + [x for x in extra if x != prop]
             if prop == "C08" and evt["ev"] in ("End", "ObsTimers", "Flush", "Tick"):
                 also = ["C02"]       # an element that is never (or twice) emitted is a loss / duplication as well
+            for x in symptoms(r):
+                if x != prop and x not in also:
+                    also = also + [x]
+                    why += "; over the whole run the node did not deliver exactly what arrived, in order" if x == "C02" else ""
             if prop not in ("C05", "C04") and "C05" not in also:
                 lk = leaked(r)
                 if lk:
